@@ -229,7 +229,7 @@ def run(tier, V):
     R = rng('c06', base)
     l0, c0 = gen_script(R, 'ascii')
     cov = {'evaluations': nchk, 'distinct_nontrivial': nchk - 0, 'scripts': n, 'commands_checked': nchk, 'rejections_checked': nrej, 'scripts_cut_by_model': cuts,
-           'rule': ('%d scripts of 3-25 commands over a i c d y pu r p = k !filter rs with addresses from numbers, ., $, marks, /re/, ?re?, +-offsets, comma and semicolon, 0, $+1, unset marks, failing searches; '
+           'rule': ('%d scripts of 3-25 commands over a i c d y pu r p = k !filter rs with addresses from numbers, ., $, marks, /re/, ?re?, +-offsets, comma and semicolon (also lists of three addresses), 0, $+1, unset marks, failing searches; :r of a file and filters whose output lack the final newline; '
                     'buffers empty / one line / many, ASCII and multi-byte.  after EVERY command: printed output, .= and a dump of the buffer are compared with the reference line editor.  '
                     'non-trivial = a command whose three observations were compared (rejections counted separately).' % n),
            'samples': [{'lines': l0[:5], 'commands': [render(c).decode('utf-8', 'replace') for c in c0[:6]]}]}
